@@ -6,11 +6,11 @@ IMPLEMENTED = sys.argv[1].split(',') if len(sys.argv) > 1 else []
 
 TECH = {
  "C01": "bounded exhaustive explicit-state / stateless exploration of the real Board (BFS with exact keys over start, 960, DFRC and curated roots; complete small constructed universes) with lock-step refinement check of generate_moves against a mailbox reference model, in magic and PEXT builds",
- "C02": "bounded exhaustive exploration of every legal-move edge of the same universes; alpha(successor) compared field by field with the reference model's successor (refinement, transition side)",
+ "C02": "bounded exhaustive exploration of every legal-move edge of the same universes; alpha(successor) compared field by field with the reference model's successor (refinement, transition side); clock roots repeated in the release profile",
  "C03": "explicit-state search with null-move deviations (<=2): checkers/pins vs literal definition in every state, equality with freshly parsed/built boards, equality of boards on every merge of histories with the same exact key",
  "C04": "bounded exhaustive exploration x complete enumeration of all 28,672 move values per visited state: is_legal vs generated set",
  "C05": "complete enumeration of finite argument spaces (all on-ray occupancy subsets per square x off-ray menu, all squares, all square pairs) against a ray-walking reference, in magic-chk, magic-rel and PEXT builds",
- "C06": "complete enumeration of small constructed builder-state universes (3/4-man, castling geometry, en passant, multi-check, one-edit neighbours) through builder and parser with a clause-by-clause soundness oracle; bounded exhaustive exploration from all 960x960 starts for acceptance",
+ "C06": "complete enumeration of small constructed builder-state universes (3/4-man, castling geometry, en passant, multi-check, one-edit neighbours) through builder and parser with a clause-by-clause soundness oracle; bounded exhaustive exploration from all 960x960 starts for acceptance; boards handed out around the clock limits also in the release profile",
  "C07": "bounded exhaustive exploration; every visited board is formatted, compared with the reference canonical record, parsed back and re-formatted; merged histories compared",
  "C08": "exhaustive enumeration of bounded string universes (all single edits of canonical records over a FEN alphabet, Cartesian product of per-field menus, all short strings) against a strict reference decoder; generator-driven expected error for single-field faults",
  "C09": "complete enumeration of constructed builder-state universes: build() vs from_fen(record) agreement, rejection of inexpressible states, from_board round trip, attribution for single-aspect faults",
@@ -18,7 +18,7 @@ TECH = {
  "C11": "black-box extraction of all Zobrist feature keys from the real library, linearity validated on every board of the explored universes, then complete decision over all realizable 1..4-feature differences via a sorted pair table",
  "C12": "bounded exhaustive exploration incl. complete 3-man (and 4-man) universes containing all elementary mates/stalemates, each state also at half-move clock 0/99/100: status vs reference definition",
  "C13": "bounded exhaustive exploration; per state an exhaustively compared cluster of variants (ep files, clocks, rights, successors): same_position on all ordered pairs vs reference FIDE identity, plus equivalence-relation laws on observed answers",
- "C14": "explicit-state search in which null moves are transitions (deviation bound <=2): refusal iff in check, result vs reference model and vs freshly constructed boards",
+ "C14": "explicit-state search in which null moves are transitions (deviation bound <=2): refusal iff in check, result vs reference model and vs freshly constructed boards; clock roots repeated in the release profile",
  "C15": "bounded exhaustive exploration x all 28,672 move values per visited state through try_play (and panicking play on a smaller family): acceptance vs reference legality, result equality, atomicity on failure",
  "C16": "bounded exhaustive exploration x mask menu x every listener abort point: delivered moves vs reference legal moves filtered by origin, batch invariants, abort contract",
  "C17": "exhaustive enumeration over 6 pieces x 64 origins x a finite family of destination sets x queried moves against a reference enumeration",
